@@ -9,7 +9,10 @@ compared.
 Property on the real code: an independent subset construction + product search written
 here (`nfaops_lib.distinguish`, shortest distinguishing word, re-confirmed through the
 real `accepts_input`) decides language equality; `==` must say exactly that, `!=` the
-opposite, both orders must agree, and `DFA.from_nfa(A) == DFA.from_nfa(B)` must agree.
+opposite, both orders must agree, and the literal default call `DFA.from_nfa(A) ==
+DFA.from_nfa(B)` must agree (theorem `C09_eq_det_lib_default_renumbered`); if that call raises
+on valid operands it is a property failure (`det_call_raised`).  Pairs on which the oracle
+runs out of budget are counted and reported as a note in the evidence.
 """
 from __future__ import annotations
 
@@ -20,14 +23,14 @@ from automata.fa.nfa import NFA
 
 from harness import gen
 from harness import nfaops_lib as L
-from harness.common import Ctx, Names, Toks, call
+from harness.common import Ctx, Names, Toks, call, guarded
 
 LEVEL = "proof"
 RULE = ("cases = ordered pairs of valid NFAs; bounded-exhaustive small pairs, then pairs built from a shaped "
         "random NFA by language-preserving rewrites (ε-elimination, determinise-and-embed, double reversal, "
         "edge splitting by ε, added unreachable / dead / duplicated states, renaming) — equivalent by construction "
         "— and by one-edge edits (add / drop / retarget one transition, flip one final state) — mostly "
-        "inequivalent, often only on one long word; independent random pairs; pairs over different alphabets; a "
+        "inequivalent, often only on one long word; equivalent pairs of 8–14 states per operand (one base table, states split differently on either side, or the union of two permuted split copies) on which the real == performs ≥ 10 union-find merges before it answers (merge count measured on the real run and recorded), and their one-edge edits; the same object on both sides; empty alphabet; independent random pairs; pairs over different alphabets; a "
         "case is non-trivial when both operands have ≥2 states and both languages are non-empty; distinct = "
         "distinct ordered pairs of definitions")
 ASSUMPTIONS = [
@@ -70,6 +73,36 @@ def real_obs(A: NFA, B: NFA):
     return dict(impl=f(r_impl), eq=f(r_eq), ne=f(r_ne))
 
 
+class MergeCount:
+    """Counts the calls of networkx `UnionFind.union` made while the real `==` runs.  In
+    `NFA.__eq__` every call joins two distinct classes (the arguments are two different roots),
+    so this is the number of union-find merges that happened before the verdict."""
+
+    def __enter__(self):
+        import networkx as nx
+        self.UF = nx.utils.union_find.UnionFind
+        self.orig = self.UF.union
+        self.n = 0
+        me = self
+
+        def union(uf, *objects):
+            me.n += 1
+            return me.orig(uf, *objects)
+        self.UF.union = union
+        return self
+
+    def __exit__(self, *a):
+        self.UF.union = self.orig
+        return False
+
+
+def merges_of(A: NFA, B: NFA):
+    """Number of union-find merges of the real `A == B` (None if it raises)."""
+    with MergeCount() as mc:
+        r = call(lambda: A == B)
+    return mc.n if r[0] == "ok" else None
+
+
 def check_pair(ctx: Ctx, A: NFA, B: NFA, origin: str, both_orders: bool = True):
     obs = real_obs(A, B)
     mod, encA, encB = model_ask(ctx, A, B)
@@ -79,7 +112,13 @@ def check_pair(ctx: Ctx, A: NFA, B: NFA, origin: str, both_orders: bool = True):
     verdict = None
     if same_alpha:
         verdict, w = L.distinguish(L.raw_of(A), L.raw_of(B), A.input_symbols, budget=20000)
+        if verdict == "budget":   # a second, much larger try before the pair is given up
+            verdict, w = L.distinguish(L.raw_of(A), L.raw_of(B), A.input_symbols, budget=400000)
+        wrong = []
+        equal = None
         if verdict == "budget":
+            # the language clause cannot be evaluated on this pair: counted, and reported as a note in
+            # the evidence by run(); symmetry and the determinisation clause are still evaluated
             ctx.stat("oracle_budget_exceeded")
         else:
             equal = verdict == "equal"
@@ -88,28 +127,37 @@ def check_pair(ctx: Ctx, A: NFA, B: NFA, origin: str, both_orders: bool = True):
                 if A.accepts_input(w) == B.accepts_input(w):
                     ctx.note(f"oracle word {w!r} not confirmed by accepts_input")
                     equal = None
-            if equal is not None:
-                exp_eq, exp_ne = ("1" if equal else "0"), ("0" if equal else "1")
-                wrong = []
-                if obs["eq"] != exp_eq:
-                    wrong.append(f"A == B is {obs['eq']} but the languages are {'equal' if equal else 'different'}"
-                                 + ("" if equal else f" (word {w!r}: A {'accepts' if A.accepts_input(w) else 'rejects'}, "
-                                                    f"B {'accepts' if B.accepts_input(w) else 'rejects'})"))
-                if obs["ne"] != exp_ne:
-                    wrong.append(f"A != B is {obs['ne']}")
-                rev = real_obs(B, A)
-                if rev["eq"] != obs["eq"] or rev["ne"] != obs["ne"]:
-                    wrong.append(f"not symmetric: B == A is {rev['eq']}, A == B is {obs['eq']}")
-                det = call(lambda: DFA.from_nfa(A) == DFA.from_nfa(B))
-                if det[0] == "ok" and det[1] is not NotImplemented and ("1" if det[1] else "0") != obs["eq"]:
-                    wrong.append(f"differs from comparing determinisations ({det[1]})")
-                if wrong:
-                    ctx.prop_fail("NFA ==: " + "; ".join(wrong), dict(case, distinguishing_word=w, observed=obs), None)
+        if equal is not None:
+            exp_eq, exp_ne = ("1" if equal else "0"), ("0" if equal else "1")
+            if obs["eq"] != exp_eq:
+                wrong.append(f"A == B is {obs['eq']} but the languages are {'equal' if equal else 'different'}"
+                             + ("" if equal else f" (word {w!r}: A {'accepts' if A.accepts_input(w) else 'rejects'}, "
+                                                f"B {'accepts' if B.accepts_input(w) else 'rejects'})"))
+            if obs["ne"] != exp_ne:
+                wrong.append(f"A != B is {obs['ne']}")
+        rev = real_obs(B, A)
+        if rev["eq"] != obs["eq"] or rev["ne"] != obs["ne"]:
+            wrong.append(f"not symmetric: B == A is {rev['eq']}, A == B is {obs['eq']}")
+        # "the same as comparing their determinisations": the literal default call
+        det = call(lambda: DFA.from_nfa(A) == DFA.from_nfa(B))
+        if det[0] != "ok":
+            ctx.stat("det_call_raised")
+            wrong.append(f"DFA.from_nfa(A) == DFA.from_nfa(B) raised {det[1]} on valid operands")
+        else:
+            ctx.stat("det_call_evaluated")
+            if det[1] is not NotImplemented and ("1" if det[1] else "0") != obs["eq"]:
+                wrong.append(f"differs from comparing determinisations ({det[1]})")
+        if wrong:
+            ctx.prop_fail("NFA ==: " + "; ".join(wrong), dict(case, distinguishing_word=w, observed=obs), None)
     nontrivial = (len(A.states) >= 2 and len(B.states) >= 2 and same_alpha and verdict in ("equal", "differ")
                   and _nonempty(A) and _nonempty(B))
     ctx.case((encA, encB) if nontrivial else None)
     ctx.stat(origin)
     ctx.stat("alphabet_same" if same_alpha else "alphabet_differs")
+    if not A.input_symbols or not B.input_symbols:
+        ctx.stat("empty_alphabet_operand")
+    if A is B:
+        ctx.stat("same_object_both_sides")
     if verdict:
         ctx.stat("languages_" + verdict)
         if verdict == "differ":
@@ -296,6 +344,164 @@ def deep_nfa(rng, alphabet, n: int) -> NFA:
     return NFA(states=set(st), input_symbols=set(sy), transitions=tr, initial_state=0, final_states=fin)
 
 
+# ------------------------------------------------- many-merge equivalent pairs (8–14 states)
+def _base_dfa_parts(rng, k: int, sy):
+    """A complete deterministic table on 0..k-1 in which every state is reachable (i → i+1 on some
+    symbol) and the final set is neither empty nor everything: most states get their own right language."""
+    st = list(range(k))
+    tr = {}
+    for i in st:
+        row = {a: {rng.choice(st)} for a in sy}
+        if i + 1 < k:
+            row[rng.choice(sy)] = {i + 1}
+        tr[i] = row
+    fin = {q for q in st if rng.random() < 0.5}
+    if not fin:
+        fin = {rng.choice(st)}
+    if len(fin) == k and k > 1:
+        fin.discard(rng.choice(st))
+    return set(st), set(sy), tr, 0, fin
+
+
+def _split_state(rng, parts, fresh):
+    """Split one state q into q and a copy m with the same row and finality; every edge into q goes to
+    q or to m (never both: a deterministic table stays deterministic, so the subset construction meets
+    q and m as two different subset states with the same language).  Language-preserving: q ~ m."""
+    st, sy, tr, init, fin = parts
+    into = {}
+    for p, row in tr.items():
+        for a, ts in row.items():
+            for t in ts:
+                into.setdefault(t, []).append((p, a))
+    cands = [q for q in st if q in into]
+    if not cands:
+        return False
+    q = rng.choice(cands)
+    m = fresh
+    st.add(m)
+    tr[m] = {a: set(ts) for a, ts in tr.get(q, {}).items()}
+    if q in fin:
+        fin.add(m)
+    edges = [(p, a) for p, row in tr.items() for a, ts in row.items() if q in ts]
+    rng.shuffle(edges)
+    moved = 0
+    for idx, (p, a) in enumerate(edges):
+        if idx == 0 or rng.random() < 0.5:
+            tr[p][a].discard(q)
+            tr[p][a].add(m)
+            moved += 1
+    return moved > 0
+
+
+def _rename_parts(rng, parts, style):
+    st, sy, tr, init, fin = parts
+    olds = list(st)
+    rng.shuffle(olds)
+    if style == 0:
+        new = list(range(len(olds)))
+        rng.shuffle(new)
+    elif style == 1:
+        new = [f"s{i}" for i in range(len(olds))]
+    elif style == 2:
+        new = [(i // 4, i % 4) for i in range(len(olds))]
+    else:
+        new = [frozenset({i, -1}) if i % 2 else i - 3 for i in range(len(olds))]
+    f = dict(zip(olds, new))
+    return (set(f.values()), set(sy), {f[k]: {a: {f[t] for t in ts} for a, ts in row.items()} for k, row in tr.items()},
+            f[init], {f[q] for q in fin})
+
+
+def _copy_parts(parts):
+    st, sy, tr, init, fin = parts
+    return set(st), set(sy), {k: {a: set(ts) for a, ts in row.items()} for k, row in tr.items()}, init, set(fin)
+
+
+def _grow(rng, parts, target: int):
+    parts = _copy_parts(parts)
+    guard = 0
+    while len(parts[0]) < target and guard < 60:
+        guard += 1
+        _split_state(rng, parts, ("c", len(parts[0]), guard))
+    return parts
+
+
+def _mk(parts) -> NFA:
+    st, sy, tr, init, fin = parts
+    return NFA(states=st, input_symbols=sy, transitions=tr, initial_state=init, final_states=fin)
+
+
+def many_merge_pair(rng):
+    """An equivalent-by-construction pair with 8–14 states per operand: both operands come from one base
+    table by splitting states (each side differently) and renaming; the right operand may instead be the
+    union (fresh initial state, ε-moves) of two differently split, permuted copies.  The subset
+    construction of either side then meets many different subset states with pairwise equal languages,
+    all of which `__eq__` has to merge before it can answer True."""
+    sy = list(rng.choice([("a", "b"), ("a", "b", "c"), ("0", "1")]))
+    k = rng.randint(4, 7)
+    base = _base_dfa_parts(rng, k, sy)
+    A = _mk(_rename_parts(rng, _grow(rng, base, rng.randint(8, 14)), rng.randrange(4)))
+    if rng.random() < 0.5:
+        kind = "split_vs_split"
+        B = _mk(_rename_parts(rng, _grow(rng, base, rng.randint(8, 14)), rng.randrange(4)))
+    else:
+        kind = "split_vs_union_of_copies"
+        total = rng.randint(max(8, 2 * k + 1), 14) if 2 * k + 1 <= 14 else None
+        if total is None:
+            return many_merge_pair(rng)
+        n1 = rng.randint(k, total - 1 - k)
+        c1 = _grow(rng, base, n1)
+        c2 = _grow(rng, base, total - 1 - n1)
+        st1, _, tr1, i1, f1 = c1
+        st2, _, tr2, i2, f2 = c2
+        T1 = lambda q: (1, q)
+        T2 = lambda q: (2, q)
+        st = {T1(q) for q in st1} | {T2(q) for q in st2} | {"start"}
+        tr = {T1(q): {a: {T1(t) for t in ts} for a, ts in row.items()} for q, row in tr1.items()}
+        tr.update({T2(q): {a: {T2(t) for t in ts} for a, ts in row.items()} for q, row in tr2.items()})
+        tr["start"] = {"": {T1(i1), T2(i2)}}
+        B = _mk(_rename_parts(rng, (st, set(sy), tr, "start", {T1(q) for q in f1} | {T2(q) for q in f2}),
+                              rng.randrange(4)))
+    return kind, A, B
+
+
+def run_many_merges(ctx: Ctx, n_pairs: int):
+    rng = ctx.rng
+    counts = []
+    for _ in range(n_pairs):
+        best = None
+        for _try in range(25):
+            kind, A, B = many_merge_pair(rng)
+            m = merges_of(A, B)
+            if m is not None and (best is None or m > best[0]):
+                best = (m, kind, A, B)
+            if m is not None and m >= 10:
+                break
+        if best is None:
+            ctx.stat("many_merge_pair_eq_raised")
+            check_pair(ctx, A, B, "many_merges_equivalent")
+            continue
+        m, kind, A, B = best
+        counts.append(m)
+        ctx.stat("many_merges_" + kind)
+        ctx.stat("many_merges_ge10" if m >= 10 else "many_merges_lt10")
+        ctx.stat(f"hk_merges_{'lt10' if m < 10 else '10_14' if m < 15 else '15_19' if m < 20 else '20_29' if m < 30 else '30+'}")
+        for X in (A, B):
+            ctx.stat(f"many_merges_operand_states_{len(X.states)}")
+        check_pair(ctx, A, B, "many_merges_equivalent")
+        # the same pair after one edit of one side: mostly inequivalent, the clash often comes late
+        C = edit_one_edge(rng, B)
+        if C is not None:
+            mc = merges_of(A, C)
+            if mc is not None:
+                ctx.stat("many_merges_edit_merges_ge10" if mc >= 10 else "many_merges_edit_merges_lt10")
+            check_pair(ctx, A, C, "many_merges_one_edge_edit")
+    if counts:
+        cs = sorted(counts)
+        ctx.note(f"many-merge family: {len(cs)} equivalent pairs of 8–14 states, union-find merges of the real "
+                 f"A == B before the verdict: min {cs[0]}, median {cs[len(cs) // 2]}, max {cs[-1]}; "
+                 f"{sum(1 for c in cs if c >= 10)} pairs with ≥ 10 merges")
+
+
 def corpus():
     a = NFA(states={0, 1}, input_symbols={"a"}, transitions={0: {"": {1}}, 1: {}}, initial_state=0, final_states={1})
     b = NFA(states={0}, input_symbols={"a"}, transitions={0: {}}, initial_state=0, final_states={0})
@@ -354,6 +560,18 @@ def run(ctx: Ctx):
         C = edit_one_edge(rng, B if rng.random() < 0.5 else A)
         if C is not None:
             check_pair(ctx, A, C, "one_edge_edit")
+    # 2b. equivalent pairs of 8–14 states that force ≥ 10 union-find merges before the verdict
+    run_many_merges(ctx, ctx.budget(150, 4000))
+    # 2c. the same object on both sides; empty alphabet
+    for _ in range(ctx.budget(60, 1500)):
+        A = gen.rand_nfa(rng, 5, alphabet=rng.choice(gen.ALPHABETS[:5]))
+        check_pair(ctx, A, A, "same_object", both_orders=False)
+    for A, B in empty_alphabet_pairs(rng, ctx.budget(40, 800)):
+        check_pair(ctx, A, B, "empty_alphabet")
+    # 2d. one long-lived NFA against a stream of temporaries
+    for _ in range(ctx.budget(12, 200)):
+        anchor = gen.rand_nfa(rng, 5, alphabet=rng.choice(gen.ALPHABETS[:4]), min_states=2)
+        run_anchor_stream(ctx, anchor, ctx.budget(60, 150))
     # 3. independent random pairs (same and different alphabets)
     for _ in range(ctx.budget(800, 20000)):
         alpha = rng.choice(gen.ALPHABETS[:5])
@@ -364,6 +582,31 @@ def run(ctx: Ctx):
             beta = alpha
         B = gen.rand_nfa(rng, 5, alphabet=beta) if rng.random() < 0.8 else L.degenerate_nfa(rng, beta)[1]
         check_pair(ctx, A, B, "random_pair")
+    report_budget(ctx)
+
+
+def report_budget(ctx: Ctx):
+    n = ctx.stats.get("oracle_budget_exceeded", 0)
+    if n:
+        ctx.note(f"oracle budget exceeded on {n} pair(s) (subset-pair BFS > 400000 pairs): the language clause of the "
+                 f"property was NOT evaluated on them (correspondence, symmetry and the determinisation clause were)")
+
+
+def empty_alphabet_pairs(rng, n: int):
+    """NFAs over the empty alphabet: only ε-moves; the language is {} or {''}."""
+    def one():
+        k = rng.randint(1, 4)
+        st = gen.name_pool(rng, k)
+        k = len(st)
+        tr = {}
+        for q in st:
+            if rng.random() < 0.7:
+                tr[q] = {"": {rng.choice(st) for _ in range(rng.randint(0, 2))}} if rng.random() < 0.7 else {}
+        tr.setdefault(st[0], {})
+        return NFA(states=set(st), input_symbols=set(), transitions=tr, initial_state=st[0],
+                   final_states={q for q in st if rng.random() < 0.4})
+    for _ in range(n):
+        yield one(), one()
 
 
 def search(ctx: Ctx):
@@ -386,10 +629,64 @@ def search(ctx: Ctx):
             return
 
 
+def _stream_verdicts(anchor: NFA, T: NFA):
+    """(what the real code says, what the languages say) for anchor == T and T == anchor."""
+    verdict, w = L.distinguish(L.raw_of(anchor), L.raw_of(T), anchor.input_symbols, budget=20000)
+    if verdict == "budget":
+        return None
+    if verdict != "equal" and anchor.accepts_input(w) == T.accepts_input(w):
+        return None
+    return (call(lambda: anchor == T), call(lambda: T == anchor), call(lambda: anchor != T)), verdict == "equal", w
+
+
+@guarded
+def run_anchor_stream(ctx: Ctx, anchor: NFA, n_temps: int, temp_reprs=None):
+    """ONE long-lived NFA compared with a stream of temporaries that are built, compared and dropped
+    (so that later temporaries reuse the memory of earlier ones): the answer must depend on the two
+    languages only, not on what the long-lived object was compared with before.  A failure is
+    reported with the whole stream up to the failing temporary as replay (`temp_reprs` = replaying)."""
+    rng = ctx.rng
+    env = {"NFA": NFA, "frozenset": frozenset}
+    alpha = sorted(anchor.input_symbols)
+    seen = []
+    for i in range(n_temps if temp_reprs is None else len(temp_reprs)):
+        if temp_reprs is not None:
+            T = eval(temp_reprs[i], env)
+        elif rng.random() < 0.3:
+            T = call(lambda: rng.choice(REWRITES)(rng, anchor))
+            T = T[1] if T[0] == "ok" and T[1] is not None else gen.rand_nfa(rng, 4, alphabet=alpha)
+        else:
+            T = gen.rand_nfa(rng, 4, alphabet=alpha)
+        seen.append(repr(T))
+        r = _stream_verdicts(anchor, T)
+        ctx.case(("stream", repr(anchor), seen[-1]) if len(anchor.states) >= 2 and len(T.states) >= 2 else None)
+        ctx.stat("anchor_vs_temporary")
+        if r is not None:
+            (eq, qe, ne), equal, w = r
+            ctx.stat("anchor_vs_temporary_" + ("equal" if equal else "differ"))
+            want = ("ok", equal)
+            if eq != want or qe != want or ne != ("ok", not equal):
+                ctx.prop_fail(f"NFA == after {i} earlier comparisons of the same long-lived NFA with temporaries that "
+                              f"were dropped: anchor == T is {eq}, T == anchor is {qe}, anchor != T is {ne}, but the "
+                              f"languages are {'equal' if equal else 'different'}"
+                              + ("" if equal else f" (word {w!r})"),
+                              dict(kind="anchor_stream", anchor=repr(anchor), temporaries=list(seen)), None)
+                return
+        del T
+
+
 def replay(ctx: Ctx, path: str) -> int:
     data = json.load(open(path))
     rp = data.get("replay", data)
     env = {"NFA": NFA, "frozenset": frozenset}
+    if rp.get("kind") == "anchor_stream":
+        run_anchor_stream(ctx, eval(rp["anchor"], env), 0, temp_reprs=rp["temporaries"])
+        if ctx.prop_fails:
+            print(f"VIOLATION property=C09 replay={path}")
+            print("  " + ctx.prop_fails[0]["what"])
+            return 1
+        print("replay: property holds on this history now")
+        return 0
     A = eval(rp["A"], env)
     B = eval(rp["B"], env)
     check_pair(ctx, A, B, "replay")
